@@ -793,13 +793,27 @@ func (fr *Frame) siteClauses(in ssa.Instruction, c *ssa.CallCommon, display stri
 		prefix = fr.fn.Name() + ":"
 	}
 	var matched []SiteSpec
+	// a helper inlined into the function under contract that the contract does not address by name ("helper:…" clauses):
+	// the un-prefixed clauses of the contract apply to its call sites too (code moved into a new helper keeps its clauses)
+	unaddressed := false
+	if prefix != "" {
+		unaddressed = true
+		for _, s := range top.Sites {
+			if strings.HasPrefix(s.Callee, prefix) {
+				unaddressed = false
+			}
+		}
+	}
 	for si, s := range top.Sites {
 		pat := s.Callee
 		if prefix != "" {
-			if !strings.HasPrefix(pat, prefix) {
+			if strings.HasPrefix(pat, prefix) {
+				pat = strings.TrimPrefix(pat, prefix)
+			} else if unaddressed && !strings.Contains(pat, ":") {
+				// keep pat
+			} else {
 				continue
 			}
-			pat = strings.TrimPrefix(pat, prefix)
 		} else if strings.Contains(pat, ":") {
 			continue
 		}
